@@ -38,7 +38,9 @@ IsForget(a) == a.op = "range_forget" \/ (a.op \in {"consume", "next", "item_cons
 (* the property a plain behavioural mismatch of this action counts against *)
 RECURSIVE Log2Ceil(_)
 Log2Ceil(k) == IF k <= 1 THEN 0 ELSE 1 + Log2Ceil((k + 1) \div 2)
-PropOf(a) == IF a.op = "place" THEN <<"C12">> ELSE IF a.op = "push_many" THEN <<"C10", "C01">> ELSE IF a.op \in ElemOps THEN <<"C01">> ELSE IF a.op \in RangeOps THEN <<"C02">>
+PropOf(a) == IF a.op = "place" THEN <<"C12">> ELSE IF a.op = "push_many" THEN <<"C10", "C01">> ELSE IF a.op \in ElemOps THEN <<"C01">>
+             ELSE IF a.op = "next" THEN <<"C02", "C14">>          \* which item a range iterator hands out at either end is also the cursor contract
+             ELSE IF a.op \in RangeOps THEN <<"C02">>
              ELSE IF a.op \in WrongOps THEN <<"C04">> ELSE IF a.op = "raw_roundtrip" THEN <<"C17">>
              ELSE IF a.op = "swap" THEN <<"C13">> ELSE IF a.op = "spare_write" THEN <<"C12">>
              ELSE IF a.op \in CapOps THEN <<"C10">> ELSE IF a.op \in CloneOps THEN <<"C08">>
@@ -135,7 +137,7 @@ CapViol(stb, x, ev) ==
         hi   == IF c.lo = -3 THEN -1 ELSE c.hi
     IN
     IF Excl(o.hk) \/ Excl(Vb.h.k) THEN {}
-    ELSE (IF o.len > o.cap THEN {V1(<<"C10">>, "len_le_cap")} ELSE {})
+    ELSE (IF o.len > o.cap THEN {V1(<<"C10", "C05">>, "len_le_cap")} ELSE {})
          \cup (IF Cfg.fixed /\ o.cap # Cfg.fcap THEN {V1(<<"C11">>, "capacity_formula")} ELSE {})
          \cup (IF ~o.al THEN {V1(<<"C12">>, "base_aligned")} ELSE {})
          \cup (IF ~o.vw THEN {V1(<<"C13", "C12">>, "views_agree")} ELSE {})
@@ -349,6 +351,10 @@ TInit == /\ n = 1
          /\ st = AdoptCaps(Init0, Rec[1].init)
          /\ bad = FALSE
 
+(* C19: without the alloc feature a stack-backed vector behaves exactly as in the default build - whatever goes wrong in the *)
+(* no-alloc build of the harness also counts against C19                                                                   *)
+NoAllocToo(V) == IF Cfg.alloc THEN V ELSE {IF "C19" \in ToSet(vv.ps) \/ "T00" \in ToSet(vv.ps) \/ "T01" \in ToSet(vv.ps) THEN vv ELSE [vv EXCEPT !.ps = @ \o <<"C19">>] : vv \in V}
+
 TNext == \E j \in 1..Len(Rec[n].kids) :
            LET c  == Rec[n].kids[j]
                ev == Rec[c]
@@ -356,7 +362,7 @@ TNext == \E j \in 1..Len(Rec[n].kids) :
            /\ n' = c
            /\ st' = r.st
            /\ bad' = r.bad
-           /\ (r.viol = {} \/ PrintT(ToJson([node |-> ev.id, viol |-> SetToSeq(r.viol)])))
+           /\ (r.viol = {} \/ PrintT(ToJson([node |-> ev.id, viol |-> SetToSeq(NoAllocToo(r.viol))])))
 
 TSpec == TInit /\ [][TNext]_tvars
 
@@ -368,6 +374,6 @@ InitViol == CapViol(Init0, Out(Init0, "ok", <<>>, <<>>), [post |-> Rec[1].init, 
                       MemKinds(Rec[1].init.mem, {10, 14}) # 1..Len(Rec[1].init.mem) \/
                       \E j \in MemKinds(Rec[1].init.mem, {10}) : Rec[1].init.mem[j][3] # Cfg.esz \/ Rec[1].init.mem[j][4] # Cfg.ealign)
                   THEN {V1(<<"C05">>, "built_once_with_layout")} ELSE {})
-InitOk == InitViol = {} \/ PrintT(ToJson([node |-> 0, viol |-> SetToSeq(InitViol)]))
+InitOk == InitViol = {} \/ PrintT(ToJson([node |-> 0, viol |-> SetToSeq(NoAllocToo(InitViol))]))
 ASSUME InitOk
 =============================================================================
